@@ -110,6 +110,22 @@ Proof.
 Qed.
 Print Assumptions C06_ague_roundtrip.
 
+(* every layer that decoding produces is in the C06 domain: decode, serialize, decode is the identity on decodable input *)
+Theorem C06_ague_decoded_wf : forall old data l tr, bytes_ok data -> ag_decode_into old data = (l, Ok tt, tr) -> ag_wf l.
+Proof.
+  intros old data l tr Hb. unfold ag_decode_into. cbv zeta. destruct (zlen data <? 4) eqn:Hn; [discriminate|].
+  assert (B : forall k, 0 <= nth k data 0 < 256) by (intros k; apply bytes_ok_nth; exact Hb).
+  rewrite !cd_idx_ok by lia. cbn [ml_bind].
+  pose proof (B (Z.to_nat 0)) as B0. pose proof (B (Z.to_nat 1)) as B1. pose proof (B (Z.to_nat 2)) as B2. pose proof (B (Z.to_nat 3)) as B3.
+  set (b0 := nth (Z.to_nat 0) data 0) in *.
+  destruct (zlen data <? 4 + b0 mod 32) eqn:C1; [discriminate|].
+  rewrite !cd_slc_ok by lia. cbn [ml_bind]. intros X.
+  match type of X with (?t, _, _) = _ => assert (El : l = t) by congruence end. subst l. clear X.
+  unfold ag_wf. cbn [ag_version ag_proto ag_flags ag_ext]. repeat split; try lia.
+  unfold zlen in *. rewrite slice_length by lia. lia.
+Qed.
+Print Assumptions C06_ague_decoded_wf.
+
 (* outside the domain: 32 extension octets spill into the C flag; the written octets do not decode back *)
 Theorem C06_ague_ext_over_31_refuted :
   let l := mkAg 0 false 4 0 (repeat 7 32) [] in
